@@ -15,17 +15,18 @@ Definition summary (r : list result * option sys) :=
                     snd (do_read (y_core y) (y_disk y) 0 100000),
                     map (fun f => (f_id f, N.of_nat (length (f_data f)), crc32 (f_data f))) (y_disk y))
   end.
+Definition osummary (r : open_res) :=
+  let ds := map (fun f => (f_id f, N.of_nat (length (f_data f)), crc32 (f_data f))) in
+  match r with
+  | OpenOk y => inl (m_rs (k_sm (y_core y)), snd (do_read (y_core y) (y_disk y) 0 100000), ds (y_disk y))
+  | OpenErr _ d => inr (ds d)
+  end.
 """
 
 
-def run_vm(ctx, seq_cases, n=48, shards=8, timeout=900):
-    """returns (checked, failures[str])"""
-    sample = sorted([c for c in seq_cases if c.startswith("SEQ ") and len(c) < 1500], key=len)[-n:]
-    if not sample:
-        return 0, []
-    lines = ["COQ %d %s" % (i, c[4:]) for i, c in enumerate(sample)]
-    exs = C.run_model(lines, ctx.wd, "coqterms")
-    d = os.path.join(ctx.wd, "vm")
+def _check(ctx, lines, nsample, tag, shards, timeout):
+    exs = C.run_model(lines, ctx.wd, tag + "terms")
+    d = os.path.join(ctx.wd, tag)
     os.makedirs(d, exist_ok=True)
     procs = []
     for s in range(shards):
@@ -47,4 +48,22 @@ def run_vm(ctx, seq_cases, n=48, shards=8, timeout=900):
             out = "timeout"
         if p.returncode != 0:
             fails.append("%s: %s" % (os.path.basename(f), out[-600:]))
-    return len(sample), fails
+    return nsample, fails
+
+
+def run_vm_img(ctx, img_cases, n=24, shards=8, timeout=900):
+    """the same for recovery: open_dir on a sample of directory images, inside Coq"""
+    sample = sorted([c for c in img_cases if c.startswith("IMG ") and len(c) < 3000], key=len)[-n:]
+    if not sample:
+        return 0, []
+    lines = ["COQIMG %d %s" % (i, c[4:]) for i, c in enumerate(sample)]
+    return _check(ctx, lines, len(sample), "vmimg", shards, timeout)
+
+
+def run_vm(ctx, seq_cases, n=48, shards=8, timeout=900):
+    """returns (checked, failures[str])"""
+    sample = sorted([c for c in seq_cases if c.startswith("SEQ ") and len(c) < 1500], key=len)[-n:]
+    if not sample:
+        return 0, []
+    lines = ["COQ %d %s" % (i, c[4:]) for i, c in enumerate(sample)]
+    return _check(ctx, lines, len(sample), "vm", shards, timeout)
